@@ -856,7 +856,33 @@ thread_local! {
 
 fn do_bind(c: &Case, p: ParsedTestCase, buf: &mut String) -> Option<TestCase> {
     let sigs = c.sigs.clone();
-    match catch_unwind(AssertUnwindSafe(move || p.with_signals(sigs))) {
+    // binding is a function of the parsed test and the signal list: a clone bound first (and, for every other case, to
+    // the REVERSED list before that) changes nothing for the binding that follows, and two bindings of equal clones are equal
+    let twin = {
+        let (p1, p2, s1) = (p.clone(), p.clone(), c.sigs.clone());
+        let mut rev = c.sigs.clone();
+        rev.reverse();
+        let odd = c.seed % 2 == 1;
+        catch_unwind(AssertUnwindSafe(move || {
+            if odd {
+                let _ = p2.with_signals(rev);
+            }
+            p1.with_signals(s1).ok()
+        }))
+        .unwrap_or(None)
+    };
+    let bound = catch_unwind(AssertUnwindSafe(move || p.with_signals(sigs)));
+    if let Ok(r) = &bound {
+        let same = match (r, &twin) {
+            (Ok(a), Some(b)) => a == b,
+            (Err(_), None) => true,
+            _ => false,
+        };
+        if !same {
+            out(buf, "BIND panic # binding a clone of the parsed test to the same signal list gave a different result");
+        }
+    }
+    match bound {
         Err(pn) => {
             out(buf, &format!("BIND panic # {}", panic_msg(&pn)));
             None
